@@ -260,7 +260,8 @@ class CPreProcessor:
         """Get next token"""
         token = self.files[-1].next_token()
         if token and expand:
-            while self.expand(token):
+            # Note: a macro may expand to nothing at the end of the input
+            while token and self.expand(token):
                 token = self.next_token(expand=False)
 
         if self.verbose:
